@@ -200,6 +200,24 @@ func runC13(w *World, r *Report, tier string) {
 			cons = fmt.Sprintf("%s#%d", k, cnt[k])
 		}
 		req, known := required[s.origin]
+		if !known && strings.HasPrefix(s.origin, "phi(") {
+			// one wrapping site for several causes: they must all be in the table and demand the same permanence
+			parts := strings.Split(strings.TrimSuffix(strings.TrimPrefix(s.origin, "phi("), ")"), "|")
+			allKnown, first := true, true
+			for _, p := range parts {
+				q, ok := required[p]
+				if !ok {
+					allKnown = false
+					break
+				}
+				if first {
+					req, first = q, false
+				} else if q != req {
+					allKnown = false
+				}
+			}
+			known = allKnown && !first
+		}
 		if !known {
 			r.Undecided("R3", cons, w.ipos(s.call), "cause of the error not in the permanence table: "+s.origin)
 			continue
